@@ -130,7 +130,8 @@ namespace C17
 /-! ### the connect pipeline at the granularity of its round trips (Model/Pipe.lean)
 
 Schedules = arbitrary lists of: an attempt's current step is answered / fails (dial, OPTIONS, STARTUP, each
-AUTH_RESPONSE round, USE), a filler stops, a pool connection breaks, Pick, the host is removed, added again
+AUTH_RESPONSE round, USE), a filler stops, a pool connection breaks, Pick, any number of fill() calls passing
+their read-locked check before one of them takes the write lock, the host is removed, added again
 (a new pool object while attempts of the old one are in flight), the pool is closed, Session.Close. -/
 
 open Pipe C17Pipe in
@@ -231,6 +232,21 @@ theorem C17_pipe_early_check_leaks :
     ∃ h, (Pipe.Host.init ⟨2, true, 0⟩).runEarly [.ok 2, .ok 2, .ok 2, .down, .ok 2, .stop, .sclose] = some h ∧
       h.sessClosed = true ∧ (∀ p ∈ h.pools, p.att = []) ∧ h.opened = 1 ∧ h.closedConns = 1 := by
   refine ⟨_, rfl, ?_, ?_, ?_, ?_⟩ <;> decide
+
+/-- several fill() calls at once on a short idle pool (the second connect was refused, the filler stopped): both
+    pass the read-locked check; under the write lock the second one finds `filling` set and returns -/
+example : ∃ h, (Pipe.Host.init ⟨2, false, 0⟩).run
+    [.fail 2, .stop, .fillCheck, .fillCheck, .fillGo, .fillGo, .ok 3, .ok 3, .ok 3, .stop] = some h ∧
+    h.cur.map (·.conns) = some [1, 3] ∧ h.opened = 2 := by
+  refine ⟨_, rfl, ?_, ?_⟩ <;> decide
+
+/-- What the check is there to catch (the family "fill's second check, under the write lock, forgets `filling`"):
+    the same schedule gives two fillers and a pool above its size. -/
+theorem C17_pipe_fill_without_recheck_overfills :
+    ∃ h, (Pipe.Host.init ⟨2, false, 0⟩).runNoRecheck
+      [.fail 2, .stop, .fillCheck, .fillCheck, .fillGo, .fillGo, .ok 3, .ok 3, .ok 3, .ok 4, .ok 4, .ok 4] = some h ∧
+      h.cur.map (·.conns) = some [1, 3, 4] ∧ h.cfg.size = 2 := by
+  refine ⟨_, rfl, ?_, ?_⟩ <;> decide
 
 /-! ### startupCoordinator.setupConn: the handshake-result protocol (Model/Pipe.lean, namespace Hs) -/
 
